@@ -89,7 +89,7 @@ def check(run):
             run.violation('euler-batch-dependence', dict(cap=cap))
 
     # coverage of directions up to sign
-    ndir = 1_000_000 if run.quick else 20_000_000
+    ndir = 4_000_000 if run.quick else 40_000_000
     worst = 0.0
     worst_dir = None
     ch = 500000
